@@ -230,6 +230,8 @@ def larger_allocations(chunk, replay=None):
                             al[m] = rng.choice([0.0, 0.1, 0.25, 0.5, 0.5, 0.75, 1.0])
                     spec.append([[(x0 + x1) / 2, y + h / 2, x1 - x0, h], al, rng.choice([0, 0, 0, 1, 3])])
                 y += h
+            if rng.random() < 0.5:
+                rng.shuffle(spec)           # the order of the cells in the document must not matter
             fixed_idx = sorted(rng.sample(range(len(spec)), rng.choice([0, 0, 1, 2]) if len(spec) > 2 else 0))
             t = rng.choice([0.0, 0.1, 0.25, 0.3, 0.5, 0.6, 0.75, 0.9, 1.0])
             lv = rng.randint(1, 3)
